@@ -702,4 +702,172 @@ example : mjMINVAL < (([⟨2, ⟨0, 0, 0⟩, ⟨1, 0, 0, 0⟩, ⟨1, 1, 1⟩⟩]
     mjMINVAL * (([⟨2, ⟨0, 0, 0⟩, ⟨1, 0, 0, 0⟩, ⟨1, 1, 1⟩⟩] : List (BodyMI ℝ)).map (·.mass)).sum < (5 : ℝ) := by
   simp only [List.map_cons, List.map_nil, List.sum_cons, List.sum_nil]; rw [mjMINVAL_eq]; norm_num
 
+/-! ### compile state surviving between compiles of one spec (edit + recompile) -/
+
+/-- the one input class for which `mjCGeom::Compile` with `inferinertia` writes neither `mass_` nor `inertia`:
+    a defined non-zero `mass` on a geom whose volume (area) is `≤ mjEPS` -/
+def staleGeom (pi : ℝ) (d : GeomDesc ℝ) : Prop :=
+  ∃ m vol, d.mass = some m ∧ m ≠ 0 ∧ geomVolume pi d.t d.shell d.size = some vol ∧ vol ≤ mjEPS
+
+/-- a first compile (constructor state) is the stateless mass branch `geomMassInertia` -/
+theorem geomCompileState_fresh (pi : ℝ) (d : GeomDesc ℝ) :
+    geomCompileState pi geomState0 true d =
+      (geomMassInertia pi d.t d.shell d.mass d.density d.size).map (fun r => ⟨r.1, r.2⟩) := by
+  unfold geomCompileState geomMassInertia geomState0
+  simp only [Bool.not_true, Bool.false_eq_true, if_false]
+  cases geomVolume pi d.t d.shell d.size with
+  | none => rfl
+  | some vol =>
+    cases d.mass with
+    | none => simp only []; split_ifs <;> rfl
+    | some m => simp only []; split_ifs <;> rfl
+
+/-- **recompiled = fresh, per geom**: outside `staleGeom`, what `InertiaFromGeom` selects from a geom whose inertia
+    is inferred does not depend on the state left by earlier compiles (in particular `density = 0` and `mass = 0`
+    reset `mass_`, so an edited-to-massless geom drops out) -/
+theorem geomCompileState_indep (pi : ℝ) (o : MassOpts ℝ) (st st' : GeomState ℝ) (d : GeomDesc ℝ) (h : ¬ staleGeom pi d) :
+    (geomCompileState pi st true d).map (geomSelect o d) = (geomCompileState pi st' true d).map (geomSelect o d) := by
+  unfold geomCompileState
+  simp only [Bool.not_true, Bool.false_eq_true, if_false]
+  have hz : ¬ ((mjEPS : ℝ) < L 0) := by rw [L0_eq]; exact not_lt.mpr (le_of_lt mjEPS_pos)
+  cases hv : geomVolume pi d.t d.shell d.size with
+  | none => rfl
+  | some vol =>
+    cases hm : d.mass with
+    | none =>
+      simp only []
+      split_ifs
+      · simp only [Option.map_some, geomSelect, hz, and_false, if_false]
+      · rfl
+    | some m =>
+      simp only []
+      split_ifs with h0 hvol
+      · simp only [Option.map_some, geomSelect, hz, and_false, if_false]
+      · rfl
+      · exfalso
+        apply h
+        refine ⟨m, vol, hm, ?_, hv, not_lt.mp hvol⟩
+        intro hm0
+        apply h0
+        simp only [real_beq, L0_eq, hm0, decide_true]
+
+/-- out-of-range geoms are neither compiled for inertia nor selected -/
+theorem geomStep_indep (pi : ℝ) (o : MassOpts ℝ) (st st' : GeomState ℝ) (d : GeomDesc ℝ)
+    (h : o.glo ≤ d.group ∧ d.group ≤ o.ghi → ¬ staleGeom pi d) :
+    (geomCompileState pi st (true && decide (o.glo ≤ d.group ∧ d.group ≤ o.ghi)) d).map (geomSelect o d) =
+    (geomCompileState pi st' (true && decide (o.glo ≤ d.group ∧ d.group ≤ o.ghi)) d).map (geomSelect o d) := by
+  by_cases hr : o.glo ≤ d.group ∧ d.group ≤ o.ghi
+  · simp only [hr, and_self, decide_true, Bool.and_true]
+    exact geomCompileState_indep pi o st st' d (h hr)
+  · have hsel : ∀ s : GeomState ℝ, geomSelect o d s = none := by
+      intro s
+      unfold geomSelect
+      rw [if_neg]
+      intro hc
+      exact hr ⟨hc.1, hc.2.1⟩
+    simp only [hr, decide_false, Bool.and_false, geomCompileState, Bool.not_false, if_true, Option.map_some, hsel]
+
+theorem compileGeoms_cons_sel (pi : ℝ) (o : MassOpts ℝ) (inferB : Bool) (d : GeomDesc ℝ) (st : GeomState ℝ)
+    (rest : List (GeomDesc ℝ × GeomState ℝ)) :
+    (compileGeoms pi o inferB ((d, st) :: rest)).map (·.2) =
+      match (geomCompileState pi st (inferB && decide (o.glo ≤ d.group ∧ d.group ≤ o.ghi)) d).map (geomSelect o d),
+            (compileGeoms pi o inferB rest).map (·.2) with
+      | some g?, some sel => some (match g? with | some g => g :: sel | none => sel)
+      | _, _ => none := by
+  simp only [compileGeoms]
+  cases geomCompileState pi st (inferB && decide (o.glo ≤ d.group ∧ d.group ≤ o.ghi)) d with
+  | none => rfl
+  | some a =>
+    cases compileGeoms pi o inferB rest with
+    | none => rfl
+    | some r =>
+      obtain ⟨r1, r2⟩ := r
+      simp only [Option.map_some]
+      cases geomSelect o d a <;> rfl
+
+/-- **the selection of `InertiaFromGeom` after an edit + recompile equals that of a fresh spec**: for any two
+    assignments of prior compile states to the geoms, when inertia is inferred and no in-range geom is `staleGeom` -/
+theorem compileGeoms_sel_indep (pi : ℝ) (o : MassOpts ℝ) (l : List (GeomDesc ℝ × GeomState ℝ × GeomState ℝ))
+    (h : ∀ x ∈ l, o.glo ≤ x.1.group ∧ x.1.group ≤ o.ghi → ¬ staleGeom pi x.1) :
+    (compileGeoms pi o true (l.map fun x => (x.1, x.2.1))).map (·.2) =
+    (compileGeoms pi o true (l.map fun x => (x.1, x.2.2))).map (·.2) := by
+  induction l with
+  | nil => rfl
+  | cons x xs ih =>
+    simp only [List.map_cons]
+    rw [compileGeoms_cons_sel, compileGeoms_cons_sel,
+      geomStep_indep pi o x.2.1 x.2.2 x.1 (h x (List.mem_cons_self)),
+      ih (fun y hy => h y (List.mem_cons_of_mem _ hy))]
+
+/-- **recompiled = fresh, per body**: the mass properties that `mjCBody::Compile` delivers for an edited spec do not
+    depend on the compile state left in its geoms by earlier compiles (`st₁` vs `st₂`, e.g. `st₂ = geomState0` for a
+    fresh spec), provided the body infers inertia from its geoms (`!explicitinertial || inertiafromgeom = true`) and
+    no geom in the group range is `staleGeom` -/
+theorem bodyCompileState_indep (pi : ℝ) (o : MassOpts ℝ) (bpos : V3 ℝ) (bquat : Q ℝ) (sp : BodyInertial ℝ)
+    (l : List (GeomDesc ℝ × GeomState ℝ × GeomState ℝ))
+    (hinf : sp.explicitinertial = false ∨ o.fromgeom = .yes)
+    (h : ∀ x ∈ l, o.glo ≤ x.1.group ∧ x.1.group ≤ o.ghi → ¬ staleGeom pi x.1) :
+    (bodyCompileState pi o bpos bquat sp (l.map fun x => (x.1, x.2.1))).map (·.1) =
+    (bodyCompileState pi o bpos bquat sp (l.map fun x => (x.1, x.2.2))).map (·.1) := by
+  have hB : (!sp.explicitinertial || decide (o.fromgeom = .yes)) = true := by
+    rcases hinf with h1 | h1 <;> simp [h1]
+  have hs := compileGeoms_sel_indep pi o l h
+  unfold bodyCompileState
+  simp only [hB]
+  split
+  · rfl
+  · revert hs
+    cases compileGeoms pi o true (l.map fun x => (x.1, x.2.1)) with
+    | none =>
+      cases compileGeoms pi o true (l.map fun x => (x.1, x.2.2)) with
+      | none => intro _; rfl
+      | some b => intro hs; simp at hs
+    | some a =>
+      cases compileGeoms pi o true (l.map fun x => (x.1, x.2.2)) with
+      | none => intro hs; simp at hs
+      | some b =>
+        intro hs
+        simp only [Option.map_some, Option.some.injEq] at hs
+        obtain ⟨a1, a2⟩ := a
+        obtain ⟨b1, b2⟩ := b
+        simp only at hs
+        subst hs
+        rfl
+
+-- the hypotheses are satisfiable: a box of density 0 after having been compiled with mass 5 is not `staleGeom`
+example : ¬ staleGeom Real.pi (⟨0, .box, false, none, 0, ⟨1, 1, 1⟩, ⟨0, 0, 0⟩, ⟨1, 0, 0, 0⟩⟩ : GeomDesc ℝ) := by
+  rintro ⟨m, vol, hm, -⟩
+  simp at hm
+
+theorem compileGeoms_noinfer_some (pi : ℝ) (o : MassOpts ℝ) (l : List (GeomDesc ℝ × GeomState ℝ)) :
+    ∃ r, compileGeoms pi o false l = some r := by
+  induction l with
+  | nil => exact ⟨_, rfl⟩
+  | cons x xs ih =>
+    obtain ⟨r, hr⟩ := ih
+    obtain ⟨d, st⟩ := x
+    obtain ⟨r1, r2⟩ := r
+    simp only [compileGeoms, Bool.false_and, geomCompileState, Bool.not_false, if_true, hr]
+    exact ⟨_, rfl⟩
+
+/-- an explicit inertial clause that is not overridden by the geoms (`explicitinertial`, `inertiafromgeom ≠ true`,
+    and `InertiaFromGeom` not called: `ipos` defined or `inertiafromgeom = false`) compiles to the same mass
+    properties whatever state the geoms carry -/
+theorem bodyCompileState_explicit_indep (pi : ℝ) (o : MassOpts ℝ) (bpos : V3 ℝ) (bquat : Q ℝ) (sp : BodyInertial ℝ)
+    (g1 g2 : List (GeomDesc ℝ × GeomState ℝ))
+    (hexp : sp.explicitinertial = true) (hfg : o.fromgeom ≠ .yes) (hcall : sp.ipos.isSome = true ∨ o.fromgeom = .no) :
+    (bodyCompileState pi o bpos bquat sp g1).map (·.1) = (bodyCompileState pi o bpos bquat sp g2).map (·.1) := by
+  have hB : (!sp.explicitinertial || decide (o.fromgeom = .yes)) = false := by simp [hexp, hfg]
+  have hc : (decide (o.fromgeom = .yes) || (sp.ipos.isNone && decide (o.fromgeom = .auto))) = false := by
+    rcases hcall with h1 | h1
+    · cases hi : sp.ipos with
+      | none => simp [hi] at h1
+      | some p => simp [hfg]
+    · simp [h1]
+  obtain ⟨⟨a1, a2⟩, ha⟩ := compileGeoms_noinfer_some pi o g1
+  obtain ⟨⟨b1, b2⟩, hb⟩ := compileGeoms_noinfer_some pi o g2
+  unfold bodyCompileState
+  simp only [hB, hc, ha, hb, Bool.false_eq_true, if_false]
+  split <;> rfl
+
 end MjProof.C35
